@@ -106,6 +106,58 @@ def checkTimeoutH2 (v : H2View) (now : Int) : Bool × CState × Bool :=
       else if now - v.rts > v.kaIdle then (true, .respEnd) else (false, v.st)
     (r.1, r.2, !r.1)
 
+/-! ### HTTP/2 request size limits (Layer A) -/
+
+/-- what h2_recv_data() keeps about the request body of one stream -/
+structure H2Body where
+  bytesIn : Nat := 0          -- r->reqbody_queue.bytes_in
+  status : Nat := 0           -- r->http_status (0: none yet)
+  isOpen : Bool := true       -- r->x.h2.state == H2_STATE_OPEN
+  cl : Option Nat := none     -- r->reqbody_length when >= 0 (Content-Length)
+deriving Repr, Inhabited, DecidableEq
+
+/-- `r->reqbody_length >= 0 && r->reqbody_length < dst->bytes_in + alen` -/
+def H2Body.overLength (b : H2Body) (alen : Nat) : Bool :=
+  match b.cl with
+  | some n => decide (n < b.bytesIn + alen)
+  | none => false
+
+/-- "tolerate up to 64k additional data before resetting stream" -/
+def h2SinkAllowance : Nat := 65536
+
+/-- h2_recv_data() for one DATA frame of `alen` payload bytes (`es`: END_STREAM) on a stream found in
+    h2c->r[]; `max` = max_request_size in bytes (0: unlimited).  Returns the new state and the error code
+    of the RST_STREAM frame it sends, if any.  (Connection-level flow control is C06's.) -/
+def h2DataStep (max : Nat) (b : H2Body) (alen : Nat) (es : Bool) : H2Body × Option Nat :=
+  if !b.isOpen then (b, some 5)                                   -- H2_E_STREAM_CLOSED
+  else if b.overLength alen then
+    ({ b with isOpen := false }, some 1)                          -- more than Content-Length: PROTOCOL_ERROR
+  else if es then
+    -- h2_recv_end_data(): the final frame is taken whatever max_request_size says
+    match b.cl with
+    | none => ({ b with isOpen := false, cl := some (b.bytesIn + alen), bytesIn := b.bytesIn + alen }, none)
+    | some n =>
+      if n ≠ b.bytesIn + alen then ({ b with isOpen := false }, some 1)
+      else ({ b with isOpen := false, bytesIn := b.bytesIn + alen }, none)
+  else if max = 0 ∨ b.bytesIn + alen ≤ max then ({ b with bytesIn := b.bytesIn + alen }, none)
+  else if b.bytesIn + alen - max > h2SinkAllowance ∨ b.status = 0 then
+    (if b.status = 0 then ({ b with status := 413 }, none)        -- refused, 413 prepared
+     else (b, some 5))                                            -- beyond the allowance: RST_STREAM
+  else ({ b with bytesIn := b.bytesIn + alen }, none)             -- sunk so that the 413 can be sent
+
+def h2DataRun (max : Nat) : H2Body → List (Nat × Bool) → H2Body
+  | b, [] => b
+  | b, f :: fs => h2DataRun max (h2DataStep max b f.1 f.2).1 fs
+
+/-- http_request_parse_header() as called for every decoded field of an HTTP/2 header block:
+    `hpctx->hlen += klen + vlen + 4` against max_request_field_size; (status, index of the refused field) -/
+def h2HeadScan (fs : Nat) : Nat → Nat → List (Nat × Nat) → Nat × Nat
+  | _, _, [] => (0, 0)
+  | hlen, i, (k, v) :: rest =>
+    if hlen + k + v + 4 > fs then (431, i) else h2HeadScan fs (hlen + k + v + 4) (i + 1) rest
+
+def h2HeadStatus (fs : Nat) (fields : List (Nat × Nat)) : Nat := (h2HeadScan fs 0 0 fields).1
+
 /-! ## configuration -/
 
 structure Cfg where
@@ -122,6 +174,11 @@ structure Cfg where
 deriving Repr, Inhabited
 
 def Cfg.maxFds (c : Cfg) : Nat := if c.mf < minMaxFds then minMaxFds else c.mf
+
+/-- server_main_setup(): the effective connection limit for a configured server.max-connections `mc`
+    (0 = unset) and descriptor limit `maxFds`: at most maxFds/2, default maxFds/3 -/
+def effMaxConns (mc maxFds : Nat) : Nat :=
+  if mc > maxFds / 2 then maxFds / 2 else if mc ≠ 0 then mc else maxFds / 3
 def Cfg.lowat (c : Cfg) : Int := ((c.maxFds * lowatNum / lowatDen : Nat) : Int)
 def Cfg.hiwat (c : Cfg) : Int := ((c.maxFds * hiwatNum / hiwatDen : Nat) : Int)
 
@@ -283,6 +340,28 @@ def gracefulConn (expired : Bool) (c : Conn) : Option Conn :=
   else if expired then none
   else some { c with keepAlive := false }
 
+/-! ### vocabulary of the limits statement -/
+
+/-- what the configured limits demand for a request, stated on the request alone — not on how, when
+    or in how many pieces it arrives -/
+def expectedStatus (cfg : Cfg) (r : Req) : Nat :=
+  if r.H > cfg.fs then 431
+  else match r.kind with
+    | .get => 200
+    | .post => if cfg.rs ≠ 0 ∧ r.B > cfg.rs * 1024 then 413 else 200
+    | .chunked => if cfg.rs ≠ 0 ∧ chunkCount r * r.csz > cfg.rs * 1024 then 413 else 200
+
+/-- a request arriving in pieces `(second, bytes)`; the statuses written in answer -/
+def feed (cfg : Cfg) (r : Req) : Option Conn → List (Int × Nat) → Option Conn × List Nat
+  | oc, [] => (oc, [])
+  | none, _ :: _ => (none, [])
+  | some c, (now, n) :: rest =>
+    let x := recv cfg now c r n
+    let y := feed cfg r x.1 rest
+    (y.1, x.2 ++ y.2)
+
+def segSum (segs : List (Int × Nat)) : Nat := (segs.map Prod.snd).sum
+
 /-! ### vocabulary of the liveness statement -/
 
 /-- the instant after which the once-per-second sweep gives up on a connection at rest -/
@@ -320,7 +399,7 @@ def runIdle (cfg : Cfg) : Option Conn → List IdleEv → Option Conn
 /-! ## Layer C: the server and its scripted clients -/
 
 def base : Int := 1000
-def maxClients : Nat := 24
+def maxClients : Nat := 96
 
 structure Client where
   opened : Bool := false
@@ -400,10 +479,13 @@ def Sys.pushConn (s : Sys) (i : Nat) (c : Conn) : Sys :=
 
 /-- what a freshly accepted connection finds in its socket: bytes sent while the client was waiting in
     the listen queue, and possibly its FIN -/
+def Sys.acceptBytes (cfg : Cfg) (s : Sys) (i : Nat) (cl : Client) (c0 : Conn) : Sys :=
+  match cl.req with
+  | some r => if cl.pre > 0 then s.putConn i (recv cfg s.now c0 r cl.pre) else s
+  | none => s
+
 def Sys.acceptData (cfg : Cfg) (s : Sys) (i : Nat) (cl : Client) (c0 : Conn) : Sys :=
-  let s := match cl.req with
-    | some r => if cl.pre > 0 then s.putConn i (recv cfg s.now c0 r cl.pre) else s
-    | none => s
+  let s := s.acceptBytes cfg i cl c0
   if cl.preFin then s.onConn i fun c => (finConn false c, []) else s
 
 /-- connection_accepted() + the first connection_state_machine() for the head of the backlog -/
